@@ -142,9 +142,42 @@ def run(ctx):
             lst = corg.op_term(t["args"][1])
             if re.match(r"^(std::clone::Clone::clone\()?param:%s\)?$" % re.escape(pname or "?"), lst) and any(recv in r for r in rets):
                 good = True
+        # ... and on EVERY path that returns an expression
+        if good:
+            from analysis.interp import Interp, Policy, Sym, App, Variant, show as _show
+
+            class PC(Policy):
+                loop_mode = "widen"
+                max_depth = 3
+                try_mode = "ok_only"
+
+                def inline(self, fn, args, interp, path):
+                    return False
+
+                def inline_closure(self, cp, args, interp, path):
+                    return False
+            cnames = [c["locals"][i].get("name") or "a%d" % i for i in range(1, c["arg_count"] + 1)]
+            for p in Interp(fb, PC()).run(c, [Sym(n) for n in cnames]):
+                if p.status != "return" or not (isinstance(p.result, Variant) and p.result.variant == "Ok"):
+                    continue
+                v = p.result.fields.get("0")
+                inst = False
+                for _ in range(12):
+                    if not (isinstance(v, App) and v.fn.startswith("mut:") and v.args):
+                        break
+                    if v.fn.endswith("::reset_vars") and len(v.args) == 2 and _show(v.args[1]) in (pname, "std::clone::Clone::clone(%s)" % pname):
+                        inst = True
+                        break
+                    v = v.args[0]
+                if not inst:
+                    good = False
+                    chk.violation("R03.2", "converter-path", "flatex_to_deepex has a path that returns an expression without installing the passed variable list on it (variables that do not occur in a node are lost): %s" % _show(p.result)[:140], loc(c["span"]))
+                    break
+            if not good:
+                pass
         if good:
             chk.ok("R03.2", "converter installs exactly the passed list on the returned expression", "", loc(c["span"]))
-        else:
+        elif not any(o["rule"] == "R03.2" and o["name"] == "converter-path" for o in chk.obligations):
             chk.violation("R03.2", "converter", "flatex_to_deepex does not install the passed variable list on the expression it returns", loc(c["span"]))
 
     # ---- R03.4 original priorities
